@@ -111,7 +111,7 @@ namespace AIToolbox::POMDP {
 
     template <IsModel M>
     std::tuple<double, VList> BlindStrategies::operator()(const M & m, const bool fasterConvergence) {
-        const MDP::QFunction ir = [&]{
+        const MDP::QFunction ir = [&]() -> MDP::QFunction {
             if constexpr(MDP::IsModelEigen<M>) return m.getRewardFunction().transpose();
             else return MDP::computeImmediateRewards(m).transpose();
         }();
